@@ -17,6 +17,9 @@ def main():
     if "--round2" in sys.argv:
         base = "/tmp/wt2"
         label = {"A": "C", "B": "D"}[x]
+    if "--round3" in sys.argv:
+        base = "/tmp/wt3"
+        label = {"A": "E", "B": "F"}[x]
     src = f"{base}/{prop}/seeded"
     patch = f"{src}/{x}.patch"
     demo = f"{src}/demo_{x.lower()}.rs"
